@@ -12,6 +12,7 @@ extern size_t __sanitizer_get_current_allocated_bytes(void);  /* libasan */
 #include "types.h"
 #include "array.h"
 #include "meta.h"
+#include "values.h"
 
 #define NH 6
 static MPT_STRUCT(array) H[NH];
@@ -117,7 +118,7 @@ static struct obj *obj_of(const void *p)
 }
 
 /* ------------------------------------------------------------------ structure walk */
-static const MPT_STRUCT(type_traits) *tr_arr, *tr_meta;
+static const MPT_STRUCT(type_traits) *tr_arr, *tr_meta, *tr_vst, *tr_dbl;
 /* layout of buffer_alloc.c's private bufferData in front of struct buffer (internals only) */
 static uintptr_t ref_of(const MPT_STRUCT(buffer) *b) { return *(const uintptr_t *) ((const uint8_t *) b - 32); }
 
@@ -146,6 +147,9 @@ static void walk(const MPT_STRUCT(buffer) *b)
 	if (t == tr_arr) {
 		for (size_t p = 0; p + sizeof(MPT_STRUCT(array)) <= b->_used; p += sizeof(MPT_STRUCT(array)))
 			walk(((const MPT_STRUCT(array) *) (d + p))->_buf);
+	} else if (t == tr_vst) {
+		for (size_t p = 0; p + sizeof(MPT_STRUCT(value_store)) <= b->_used; p += sizeof(MPT_STRUCT(value_store)))
+			walk(((const MPT_STRUCT(value_store) *) (d + p))->_d._buf);
 	} else if (t == tr_meta) {
 		for (size_t p = 0; p + sizeof(void *) <= b->_used; p += sizeof(void *)) {
 			const void *mt = *(void * const *) (d + p);
@@ -205,6 +209,22 @@ static void put_tree(const MPT_STRUCT(buffer) *b, const MPT_STRUCT(buffer) **pat
 			if (!first) fputc(' ', stdout);
 			first = 0;
 			put_tree(((const MPT_STRUCT(array) *) (d + p))->_buf, path, depth + 1);
+		}
+	} else if (t == tr_vst) {
+		fputs("V[", stdout);
+		for (size_t p = 0; p + sizeof(MPT_STRUCT(value_store)) <= b->_used; p += sizeof(MPT_STRUCT(value_store))) {
+			if (!first) fputc(' ', stdout);
+			first = 0;
+			put_tree(((const MPT_STRUCT(value_store) *) (d + p))->_d._buf, path, depth + 1);
+		}
+	} else if (t == tr_dbl) {
+		fputs("D[", stdout);
+		for (size_t p = 0; p + sizeof(double) <= b->_used; p += sizeof(double)) {
+			double v;
+			memcpy(&v, d + p, sizeof(v));
+			if (!first) fputc(' ', stdout);
+			first = 0;
+			printf("%ld", (long) v);
 		}
 	} else if (t == tr_meta) {
 		fputs("M[", stdout);
@@ -291,6 +311,8 @@ int main(void)
 	setvbuf(stdout, outbuf, _IOLBF, sizeof(outbuf));
 	tr_arr = mpt_array_traits();
 	tr_meta = mpt_meta_reference_traits();
+	tr_vst = mpt_value_store_traits();
+	tr_dbl = mpt_type_traits('d');
 	/* first allocation fixes the granule; keep it out of the heap accounting */
 	{ MPT_STRUCT(buffer) *b = _mpt_buffer_alloc(1, 0); b->_vptr->unref(b); }
 	while (fgets(line, sizeof(line), stdin)) {
@@ -394,6 +416,21 @@ int main(void)
 			if (arr->_buf && (arr->_buf->_content_traits != sb->_content_traits || a > count_of(arr->_buf))) BAD;
 			if (!arr->_buf && a) BAD;
 			RES_PTR(mpt_array_set(arr, sb->_content_traits, c * e, ((const uint8_t *) (sb + 1)) + b * e, (long) a));
+		}
+		else if (!strcmp(op, "sput") && drv_nw == 5) {
+			/* the array of h as the dimensions of a raw data stage: val = mpt_stage_data(stage, dim), then one more
+			 * value in that dimension (mpt_values_prepare on the array inside the returned element) */
+			MPT_STRUCT(rawdata_stage) st = MPT_RAWDATA_STAGE_INIT;
+			MPT_STRUCT(value_store) *val;
+			double *dst;
+			if (drv_parse_nat(drv_w[3], &a) || a > 6 || drv_parse_nat(drv_w[4], &b) || b > 99) BAD;
+			st._d = *arr;
+			val = mpt_stage_data(&st, (unsigned) a);
+			*arr = st._d;
+			if (!val) { RES("refused", "null"); goto next; }
+			if (!(dst = mpt_values_prepare(&val->_d, 1))) { RES("refused", "prepare"); goto next; }
+			*dst = (double) b;
+			RES("ok", "-");
 		}
 		else if (!strcmp(op, "mnew") && drv_nw == 5) {
 			/* fresh array of k references to new metatype instances (sharable: s = 1) */
